@@ -11,6 +11,29 @@ NOTE = ("Trusted base: CPython 3.12 semantics of the constructs modelled; the en
         "third-party libraries (scipy, numpy, json, json5, yaml, plistlib, csv, xml.etree, intervaltree, tqdm) are "
         "assumed, not analysed; frozen idiom tables listed in DESIGN.md section 8.")
 
+# Rules added after rounds 2 and 3 (DESIGN.md 10.9 / 10.10); appended to the level text of each entry.
+ADDENDA = {
+    "C01": "Added: (R01b) the shared-suffix scan is confined to what follows the shared prefix in both sequences; (R01h) no truthiness tests on nodes.",
+    "C02": "Added: (R02g) leaf equality keeps booleans and numbers apart; (R02h) every part of a parsed XML element (incl. tail text) reaches the tree - known finding; (R03a, uncounted sub-edits) every sub-edit a compound lists is counted by its bounds, also through constructor-cached cost fields; a second recogniser accepts the two-row form of the distance table.",
+    "C03": "Added: (R03d) the bottom-right cell is exhausted before the path is reconstructed; (R03g) sizes bound the computed leaf costs (size-derived caps of compound edits are sound); (R03h) multiset leftovers are counted with multiplicity and the matcher keeps its assignment by position - known findings.",
+    "C04": "Added: (R04g) incomplete-matrix lower bound over two consecutive anti-diagonals; (R04h) the progress flag of EditDistance agrees with its interval, degenerate alignments are definitive; (R04i) EditCollection's cap-minus-improvements interval - known finding; R03d/R03g/R03h are shared.",
+    "C05": "Added: (R05d) edges are distinct before the matcher solves; (R05e) driver loops agree; (R05f) EditCollection.edits is re-entrant (yields by position); R03d/R03h shared.",
+    "C06": "Added: (E5d) an edit is rendered once - same-node forwarding handlers pass with_edits=False where the protocol can select them for an item; R01b shared.",
+    "C07": "Added: (R07d/e) no untyped or shared memo; (R07f) no default object repr reaches printed text or leaf costs; (R07g) process-wide installers (colorama.init) run at most once; (R07h) formatters restore the caller's printer; (R07i) builders for hash-ordered types canonicalise - known finding.",
+    "C08": "Added: (R08d) no ordering comparison steers the pairing of unordered collections; (R08e) the order behind the canonical sort is total; R02b/R02f/R02g shared (swapping unequal list elements costs something).",
+    "C09": "Added: (R09e) loaders never branch on the truth value of a parsed document; (R09f) sibling loaders open their file in the same (binary) mode.",
+    "C10": "Added: R10a is a whole-program census (every list node built on any path reachable from a file type's build_tree carries the list options; copies keep them); R02g shared.",
+    "C12": "Added: (R12c) formatter state is reset between prints.",
+    "C13": "Added: (E5c) no dispatch cycle; (H8) override compatibility; (H9) colour palettes; (H10) context managers release only what they acquired; (H11) leaf objects handed to library encoders are inside the encoder's type switch (read from the library source) - plist/null is a known finding; (H6) copy() while printing (XMLElement.copy_from) - known finding.",
+    "C14": "Added: (R14e) newline convention; (R14f) no import-time Printer becomes a colour printer through a writer that always claims a terminal (--color reaches redirected output).",
+    "C15": "Added: (R15b) the sentinel dominates the largest weight by construction; (R15c) every dtype returned is justified by the containment test on this call's arguments and the caller checks the integer range; (R15d) the empty-table answer precedes weight arithmetic; (R15f) numeric limits of the float64 solver and of the float sentinel - known findings.",
+    "C16": "Added: (R16h) the max-heap overrides every base method that takes a raw key.",
+    "C17": "Added: (R17d) candidate heaps are cleared only where domination is established; (R17e) the search's goal branch reports progress, pruning against the caller's bounds is strict, make_distinct tightens until finite.",
+    "C18": "Added: (R18e) builders are stateless; (R18f) recursion keeps options; (R18g) leaf branches precede the key refusal in json.build_tree; (R18h) every concrete node class has structural __eq__/__hash__ (no identity comparison of payload wrappers); (R18i) hashable positions: ordering and hashability of container keys/members - known findings.",
+    "C19": "Added: (R19c) the whitelist mapping is read-only; (R19f) get_member refuses members of interpreter objects (generators, frames, code, functions, modules) with a type()-based guard; (R19g) classes cannot be subscripted; (R19h) no public node method exports the instance dict to live-node evaluation - known finding.",
+    "C20": "Added: R20b also covers a frozen table of implicit raises (C code, unguarded parser state) and explicit raises of project functions reached while building the tree; (R20d) strict JSON constants - known finding.",
+}
+
 # id -> (technique, level text, design ref)
 CHECKS = {
     "C05": ("typestate dataflow (abstract interpretation per class) + effect/dependence analysis on the AST",
@@ -235,7 +258,8 @@ def main():
             "evidence_file": f"/verif/evidence/{pid}.json",
             "replay_cmd_template": "./check --replay {path}",
             "engine": "gtstatic",
-            "level_claimed": {"category": "other", "text": text, "design_ref": ref},
+            "level_claimed": {"category": "other", "text": text + (" " + ADDENDA[pid] if pid in ADDENDA else ""),
+                              "design_ref": ref + "; section 10 (as built, rounds 2 and 3)"},
             "level_note": NOTE,
             "technique": "static analysis: " + tech,
         })
